@@ -2594,6 +2594,7 @@ class Recipe:
             raise ValueError("Invalid destinations.")
 
         delta = 0
+        states = 0  # how many well / container states were summed: each was rounded to the internal precision
 
         if timeframe not in self.stages.keys():
             raise ValueError("Invalid timeframe")
@@ -2621,11 +2622,16 @@ class Recipe:
                     after_substances += step.frm[1].contents.get(substance, 0)
             after_substances += step.trash.get(substance, 0)
             delta += after_substances - before_substances
+            states += sum(2 * (elem.wells.size if isinstance(elem, Plate) else 1) for elem in (step.to[0], step.frm[0])
+                          if elem is not None and elem.name in dest_names)
 
+        # a net change of zero comes out as rounding noise of either sign
+        if -states * 10 ** -config.internal_precision <= delta < 0:
+            delta = 0
         if delta < 0:
             raise ValueError(
                 f"Destination containers contain {-delta} {from_unit} less of substance {substance}" +
-                " after stage {timeframe}. Did you specify the correct destinations?")
+                f" after stage {timeframe}. Did you specify the correct destinations?")
         precision = config.precisions[unit] if unit in config.precisions else config.precisions['default']
         return round(Unit.convert(substance, f'{delta} {from_unit}', unit), precision)
 
